@@ -6,6 +6,7 @@ From Coq Require Import Arith NArith List Bool.
 From Verif Require Import Base.Bytes Base.Hash Model.Merkle Model.MerkleSpec Model.Contracts Model.TreeStore Model.BridgeStore
   Proofs.Frontier Proofs.Rht Proofs.InitCache Proofs.ContractProofs Proofs.BitFacts Proofs.C01Proofs
   Proofs.TreeStoreProofs Proofs.TreeStoreCorollaries Proofs.BridgeReach Gen.SourceFacts.
+From Verif Require Gen.GenAppendOnlyTree Proofs.GenAgreeTree.
 Import ListNotations.
 Local Close Scope N_scope.
 
@@ -140,6 +141,50 @@ Theorem C01_processor_exit_roots : forall st i, BReach HT node zhf leafh st -> (
 Proof. exact (processor_exit_roots HT node node_inj zhf Hzh leafh Hleaf). Qed.
 End Processor.
 
+(* ================= the translated Go code =================
+   Gen/GenAppendOnlyTree.v is GENERATED from tree/appendonlytree.go by tools/go2coq on every run: `AddLeaf_loop` is the first `for`
+   statement of AddLeaf (the hashing loop over the 32 levels: bit test, right / left child, cache update, node list) as a
+   function of its free variables, over an abstract hash. For ANY cache list of length 32 that satisfies the frontier invariant
+   for i leaves and ANY zero table holding the zero hashes, the generated loop returns, for deposit count i < 2^32, the reference
+   Merkle root of the first i+1 leaves and a cache that satisfies the invariant for i+1 leaves (so the statement iterates). *)
+Theorem C01_generated_AddLeaf_loop_root_is_merkle_root : forall (hash : Type) (hash2 : hash -> hash -> hash) (hash0 z0 : hash) (f : nat -> hash)
+    i cl zeroes,
+  i < 2 ^ 32 -> length cl = 32 -> (forall h, h < 32 -> nth h zeroes hash0 = zero hash2 z0 h) ->
+  CacheInv hash2 z0 f 32 i (fun j => nth j cl hash0) ->
+  exists nodes cl',
+    GenAppendOnlyTree.AddLeaf_loop hash hash2 hash0 (N.of_nat i) (f i) cl zeroes [] = (mroot hash2 z0 f 32 (S i), nodes, cl') /\
+    CacheInv hash2 z0 f 32 (S i) (fun j => nth j cl' hash0) /\ length cl' = 32.
+Proof. exact GenAgreeTree.generated_AddLeaf_loop_root_is_merkle_root. Qed.
+(* ... and its three results are those of the hand-written model (root, cache pointwise, nodes), for every index, leaf,
+   cache and zero table: the executable model that the correspondence runs is the translated loop *)
+Theorem C01_generated_AddLeaf_loop_is_model : forall (hash : Type) (hash2 : hash -> hash -> hash) (hash0 : hash) idx leaf cl zeroes (c : nat -> hash),
+  (forall j, c j = nth j cl hash0) -> length cl = 32 ->
+  let '(r, c', ns) := climb3 hash2 (fun k => nth k zeroes hash0) 32 0 (fun k => N.testbit idx (N.of_nat k)) leaf c in
+  exists cl', GenAppendOnlyTree.AddLeaf_loop hash hash2 hash0 idx leaf cl zeroes [] = (r, map (GenAgreeTree.to_node hash) ns, cl') /\
+              (forall j, c' j = nth j cl' hash0) /\ length cl' = 32.
+Proof. exact GenAgreeTree.AddLeaf_loop_agree. Qed.
+(* non-vacuity: the hypotheses are met by the empty tree (any cache list of length 32 satisfies the invariant for 0 leaves) and a
+   zero table built from the recursive definition (kept symbolic: computing `zero` naively is exponential); the theorem then
+   yields the root of the one-leaf tree *)
+Example C01_generated_nonvacuous : forall (hash : Type) (hash2 : hash -> hash -> hash) (hash0 z0 : hash) (f : nat -> hash),
+  let zs := map (zero hash2 z0) (seq 0 32) in
+  let cl := repeat hash0 32 in
+  (forall h, h < 32 -> nth h zs hash0 = zero hash2 z0 h) /\ length cl = 32 /\
+  CacheInv hash2 z0 f 32 0 (fun j => nth j cl hash0) /\
+  exists nodes cl', GenAppendOnlyTree.AddLeaf_loop hash hash2 hash0 0%N (f 0) cl zs [] = (mroot hash2 z0 f 32 1, nodes, cl').
+Proof.
+  intros hash hash2 hash0 z0 f zs cl.
+  assert (Hz : forall h, h < 32 -> nth h zs hash0 = zero hash2 z0 h).
+  { intros h Hh. unfold zs. rewrite (nth_indep _ hash0 (zero hash2 z0 0)) by (rewrite map_length, seq_length; exact Hh).
+    rewrite (map_nth (zero hash2 z0) (seq 0 32) 0 h), seq_nth by exact Hh. reflexivity. }
+  assert (Hl : length cl = 32) by apply repeat_length.
+  assert (Hi : CacheInv hash2 z0 f 32 0 (fun j => nth j cl hash0)) by apply (CacheInv_0 hash2 z0 f).
+  split; [exact Hz | split; [exact Hl | split; [exact Hi|]]].
+  assert (H0 : 0 < 2 ^ 32) by (apply Nat.neq_0_lt_0, Nat.pow_nonzero; discriminate).
+  destruct (GenAgreeTree.generated_AddLeaf_loop_root_is_merkle_root hash hash2 hash0 z0 f 0 cl zs H0 Hl Hz Hi) as (nodes & cl' & E & _).
+  exists nodes, cl'. exact E.
+Qed.
+
 Print Assumptions C01_bit_function.
 Print Assumptions C01_processor_invariant.
 Print Assumptions C01_processor_exit_roots.
@@ -157,3 +202,5 @@ Print Assumptions C01_store_no_root_beyond_history.
 Print Assumptions C01_store_invariant.
 Print Assumptions C01_store_next_deposit_accepted.
 Print Assumptions C01_store_gap_refused.
+Print Assumptions C01_generated_AddLeaf_loop_root_is_merkle_root.
+Print Assumptions C01_generated_AddLeaf_loop_is_model.
